@@ -466,3 +466,33 @@ func concretizeInt(v value, what string, limit int) int64 {
 	i := cx.Choose(n, conds)
 	return t.Lo.Int64() + int64(i)
 }
+
+// concretizeBound forks over the feasible values of a symbolic slice bound: outside 0..limit the
+// target panics (one path), inside the values are enumerated.
+func concretizeBound(v value, capacity, length int) int64 {
+	s, ok := v.(*Sym)
+	if !ok {
+		return asInt64(v)
+	}
+	limit := capacity
+	if length > limit {
+		limit = length
+	}
+	if s.T.Lo != nil && s.T.Hi != nil {
+		if span := new(big.Int).Sub(s.T.Hi, s.T.Lo); span.IsInt64() && span.Int64() < 4096 {
+			return concretizeInt(v, "slice bound", 4096)
+		}
+	}
+	if limit >= 4096 {
+		Unsupported("slice bound: symbolic bound into %d elements", limit)
+	}
+	out := sym.Or(sym.Lt(s.T, sym.Int(0)), sym.Lt(sym.Int(int64(limit)), s.T))
+	if cx.Branch(out) {
+		panic(runtimeError("slice bounds out of range [symbolic] with capacity " + fmt.Sprint(limit)))
+	}
+	conds := make([]*sym.Term, limit+1)
+	for i := range conds {
+		conds[i] = sym.Eq(s.T, sym.Int(int64(i)))
+	}
+	return int64(cx.Choose(limit+1, conds))
+}
